@@ -1,2 +1,3 @@
 """Sidecar contracts for odc-geo (one module per repository module)."""
 from . import roi_c  # noqa: F401
+from . import math_c  # noqa: F401
